@@ -27,28 +27,31 @@ CONSTANTS Base, Count,        \* fixed window b, c
           Sizes,              \* record sizes
           PreSizes,           \* size of the content found at first build: -1 = no file, 0 = empty file, n
           MaxRec, MaxFaults, MaxCrash, MaxRestart, MaxObst,
+          MaxEncFail,         \* encoder failures (the encoder writes part of the record, then returns an error)
+          BufFloor,           \* whole units that fit into the 1 KiB BufWriter (2 for 400-byte units, 64 and more for small ones)
           Hist                \* TRUE = carry the operation history (replay emission)
 
 VARIABLES disk,      \* [act |-> entry, arch |-> [Idx -> entry]]
-          writer,    \* [open |-> BOOLEAN, len |-> Nat]   (LogWriter: BufWriter + len)
+          writer,    \* [open |-> BOOLEAN, len |-> Nat, buf |-> records accepted but not flushed]   (LogWriter: BufWriter + len)
           pc, cur, ri, after,
           used,      \* on-start-up trigger consumed in this lifetime
           W,         \* the stream of records written so far (minus by-design truncation)
           acked, nextId,
           fault,     \* armed step fault: [k |-> "none"|"shift"|"final"|"remove", i |-> index]
-          nFaults, nCrash, nRestart, nObst,
+          nFaults, nCrash, nRestart, nObst, nEnc,
           ref, refAct,   \* shadow: the same appends with atomic fault-free rotations (newest chunk first)
           rolls,     \* rotations requested in this lifetime (C17)
           res,       \* result of the last append: "ok" | "err" | "none"
           hist
 
-vars == <<disk, writer, pc, cur, ri, after, used, W, acked, nextId, fault, nFaults, nCrash, nRestart, nObst,
+vars == <<disk, writer, pc, cur, ri, after, used, W, acked, nextId, fault, nFaults, nCrash, nRestart, nObst, nEnc,
           ref, refAct, rolls, res, hist>>
 
 IsWindow == Roller = "window" /\ Count > 0
 Idx == Base .. (Base + Count)          \* one name beyond the window, to see it untouched
 Window == Base .. (Base + Count - 1)
 NoFault == [k |-> "none", i |-> 0]
+Closed == [open |-> FALSE, len |-> 0, buf |-> <<>>]
 RECURSIVE SumSz(_)
 SumSz(s) == IF s = <<>> THEN 0 ELSE Head(s).sz + SumSz(Tail(s))
 Size(f) == SumSz(f.d)
@@ -79,10 +82,10 @@ Init ==
        /\ W = IF p > 0 THEN <<[id |-> 0, sz |-> p]>> ELSE <<>>
        /\ refAct = IF p > 0 THEN <<[id |-> 0, sz |-> p]>> ELSE <<>>
        /\ hist = IF Hist THEN <<[op |-> "pre", sz |-> p]>> ELSE <<>>
-  /\ writer = [open |-> FALSE, len |-> 0]
+  /\ writer = Closed
   /\ pc = "down" /\ cur = [id |-> 0, sz |-> 0] /\ ri = 0 /\ after = "none"
   /\ used = FALSE /\ acked = {} /\ nextId = 1
-  /\ fault = NoFault /\ nFaults = 0 /\ nCrash = 0 /\ nRestart = 0 /\ nObst = 0
+  /\ fault = NoFault /\ nFaults = 0 /\ nCrash = 0 /\ nRestart = 0 /\ nObst = 0 /\ nEnc = 0
   /\ ref = <<>> /\ rolls = 0 /\ res = "none"
 
 \* get_writer(): open the active file if the writer is None.  `truncate` says whether this open
@@ -91,10 +94,10 @@ OpenEffect(truncate) ==
   IF writer.open THEN UNCHANGED <<disk, writer, W>>
   ELSE IF truncate
        THEN /\ disk' = [disk EXCEPT !.act = File(<<>>)]
-            /\ writer' = [open |-> TRUE, len |-> 0]
+            /\ writer' = [open |-> TRUE, len |-> 0, buf |-> <<>>]
             /\ W' = SubSeq(W, 1, Len(W) - Len(disk.act.d))      \* discarded by truncation
        ELSE /\ disk' = [disk EXCEPT !.act = File(disk.act.d)]    \* create(true)
-            /\ writer' = [open |-> TRUE, len |-> Size(disk.act)]
+            /\ writer' = [open |-> TRUE, len |-> Size(disk.act), buf |-> <<>>]
             /\ UNCHANGED W
 
 \* RollingFileAppenderBuilder::build: "open the log file immediately"
@@ -105,33 +108,36 @@ Build ==
   \* truncation at build discards the active content by design; the shadow restarts from the disk
   /\ IF ~AppendMode THEN refAct' = <<>> /\ ref' = ArchList(Base) ELSE UNCHANGED <<ref, refAct>>
   /\ hist' = Log([op |-> "build", disk |-> Snap'])
-  /\ UNCHANGED <<cur, ri, after, acked, nextId, fault, nFaults, nCrash, nRestart, nObst>>
+  /\ UNCHANGED <<cur, ri, after, acked, nextId, fault, nFaults, nCrash, nRestart, nObst, nEnc>>
 
 Start(sz) ==
   /\ pc = "idle" /\ nextId <= MaxRec
   /\ cur' = [id |-> nextId, sz |-> sz] /\ nextId' = nextId + 1
   /\ pc' = "gw1" /\ res' = "none"
-  /\ UNCHANGED <<disk, writer, ri, after, used, W, acked, fault, nFaults, nCrash, nRestart, nObst, ref, refAct, rolls, hist>>
+  /\ UNCHANGED <<disk, writer, ri, after, used, W, acked, fault, nFaults, nCrash, nRestart, nObst, nEnc, ref, refAct, rolls, hist>>
 
 GetWriter1 ==
   /\ pc = "gw1"
   /\ OpenEffect(~AppendMode /\ ReopenTruncates)
   /\ pc' = IF Pre THEN "pretrig" ELSE "write"
-  /\ UNCHANGED <<cur, ri, after, used, acked, nextId, fault, nFaults, nCrash, nRestart, nObst, ref, refAct, rolls, res, hist>>
+  /\ UNCHANGED <<cur, ri, after, used, acked, nextId, fault, nFaults, nCrash, nRestart, nObst, nEnc, ref, refAct, rolls, res, hist>>
 
 \* the real triggers; the scripted ones ("pre", "post") fire where TLC says
 Fires(len) == CASE Trig = "size"    -> len > Limit
                 [] Trig = "startup" -> ~used /\ len >= Limit
                 [] OTHER            -> FALSE
 
-\* LogFile::roll() closes the writer, then the roller starts
+\* dropping the BufWriter writes what it still holds (the part of a record whose encoder failed)
+Flushed(d) == IF writer.buf = <<>> THEN d ELSE [d EXCEPT !.act.d = @ \o writer.buf]
+\* LogFile::roll() closes the writer (flushing), then the roller starts
 BeginRoll(nextpc) ==
-  /\ writer' = [open |-> FALSE, len |-> 0]
+  /\ writer' = Closed
+  /\ disk' = Flushed(disk) /\ W' = W \o writer.buf
   /\ after' = nextpc
   /\ rolls' = rolls + 1
   /\ IF IsWindow THEN pc' = "rot" /\ ri' = Base + Count - 2 ELSE pc' = "remove" /\ UNCHANGED ri
   /\ ref' = IF ~IsWindow THEN <<>>
-            ELSE SubSeq(<<refAct>> \o ref, 1, IF Len(ref) + 1 > Count THEN Count ELSE Len(ref) + 1)
+            ELSE SubSeq(<<refAct \o writer.buf>> \o ref, 1, IF Len(ref) + 1 > Count THEN Count ELSE Len(ref) + 1)
   /\ refAct' = <<>>
 
 Decision(f) == hist' = IF Hist /\ Trig \in {"pre", "post"} THEN Append(hist, [op |-> "decide", fire |-> f]) ELSE hist
@@ -142,8 +148,8 @@ PreTrig ==
   /\ \E f \in (IF Trig = "pre" THEN BOOLEAN ELSE {Fires(writer.len)}) :
        /\ Decision(f)
        /\ IF f THEN BeginRoll("gw2")
-          ELSE pc' = "gw2" /\ UNCHANGED <<writer, after, ri, ref, refAct, rolls>>
-  /\ UNCHANGED <<disk, cur, W, acked, nextId, fault, nFaults, nCrash, nRestart, nObst, res>>
+          ELSE pc' = "gw2" /\ UNCHANGED <<writer, after, ri, ref, refAct, rolls, disk, W>>
+  /\ UNCHANGED <<cur, acked, nextId, fault, nFaults, nCrash, nRestart, nObst, nEnc, res>>
 
 \* the failing step changes nothing on disk
 Fail == /\ pc' = "idle" /\ res' = "err"
@@ -170,38 +176,62 @@ RotStep ==
                IF m.ok THEN /\ disk' = [disk EXCEPT !.act = m.src, !.arch[Base] = m.dst]
                             /\ pc' = after /\ UNCHANGED <<ri, fault, res, hist>>
                ELSE Fail /\ UNCHANGED <<disk, ri, fault>>
-  /\ UNCHANGED <<writer, cur, after, used, W, acked, nextId, nFaults, nCrash, nRestart, nObst, ref, refAct, rolls>>
+  /\ UNCHANGED <<writer, cur, after, used, W, acked, nextId, nFaults, nCrash, nRestart, nObst, nEnc, ref, refAct, rolls>>
 
 GetWriter2 ==
   /\ pc = "gw2"
   /\ OpenEffect(~AppendMode /\ ReopenTruncates)
   /\ pc' = "write"
-  /\ UNCHANGED <<cur, ri, after, used, acked, nextId, fault, nFaults, nCrash, nRestart, nObst, ref, refAct, rolls, res, hist>>
+  /\ UNCHANGED <<cur, ri, after, used, acked, nextId, fault, nFaults, nCrash, nRestart, nObst, nEnc, ref, refAct, rolls, res, hist>>
 
 \* encode + flush: the record reaches the file whole
 \* (a record that encodes to zero bytes leaves no trace in any file; it still goes through the triggers)
 Write ==
   /\ pc = "write"
-  /\ disk' = IF cur.sz = 0 THEN disk ELSE [disk EXCEPT !.act.d = Append(@, cur)]
-  /\ writer' = [writer EXCEPT !.len = @ + cur.sz]
-  /\ W' = IF cur.sz = 0 THEN W ELSE Append(W, cur)
-  /\ refAct' = IF cur.sz = 0 THEN refAct ELSE Append(refAct, cur)
+  /\ LET new == writer.buf \o (IF cur.sz = 0 THEN <<>> ELSE <<cur>>) IN
+       /\ disk' = IF new = <<>> THEN disk ELSE [disk EXCEPT !.act.d = @ \o new]
+       /\ W' = W \o new
+       /\ refAct' = refAct \o new
+  /\ writer' = [writer EXCEPT !.len = @ + cur.sz, !.buf = <<>>]
   /\ pc' = IF Pre THEN "ack" ELSE "posttrig"
-  /\ UNCHANGED <<cur, ri, after, used, acked, nextId, fault, nFaults, nCrash, nRestart, nObst, ref, rolls, res, hist>>
+  /\ UNCHANGED <<cur, ri, after, used, acked, nextId, fault, nFaults, nCrash, nRestart, nObst, nEnc, ref, rolls, res, hist>>
+
+\* the encoder writes k units of the record in one write call and then fails (a user-defined Encode, or a
+\* formatter's error): append returns the error at once - no flush, no policy.  What was accepted is counted in len.
+\* Where it is depends on the BufWriter (capacity 1 KiB = BufFloor whole units and a fraction): a write that does not
+\* fit into the spare room flushes the buffer first, a write of at least the capacity goes to the file directly,
+\* anything else stays in the buffer until the next flush (the next record, a rotation, the drop of the appender);
+\* process death loses the buffer.  The part is itself a well-formed record [id, k], so that files stay parseable;
+\* k = cur.sz is "everything written, then Err".
+EncFail(k) ==
+  /\ pc = "write" /\ nEnc < MaxEncFail /\ k <= cur.sz
+  /\ nEnc' = nEnc + 1
+  /\ LET part == [id |-> cur.id, sz |-> k]
+         flushFirst == k + SumSz(writer.buf) > BufFloor
+         direct == k > BufFloor
+         kept == IF flushFirst THEN <<>> ELSE writer.buf
+         toDisk == (IF flushFirst THEN writer.buf ELSE <<>>) \o (IF direct THEN <<part>> ELSE <<>>)
+     IN /\ writer' = [writer EXCEPT !.len = @ + k, !.buf = IF direct \/ k = 0 THEN kept ELSE Append(kept, part)]
+        /\ disk' = IF toDisk = <<>> THEN disk ELSE [disk EXCEPT !.act.d = @ \o toDisk]
+        /\ W' = W \o toDisk /\ refAct' = refAct \o toDisk
+  /\ pc' = "idle" /\ res' = "err"
+  /\ hist' = Log([op |-> "append", id |-> cur.id, sz |-> cur.sz, res |-> "encfail", part |-> k,
+                  buffered |-> SumSz(writer'.buf), disk |-> Snap'])
+  /\ UNCHANGED <<cur, ri, after, used, acked, nextId, fault, nFaults, nCrash, nRestart, nObst, ref, rolls>>
 
 PostTrig ==
   /\ pc = "posttrig"
   /\ \E f \in (IF Trig = "post" THEN BOOLEAN ELSE {Fires(writer.len)}) :
        /\ Decision(f)
        /\ IF f THEN BeginRoll("ack")
-          ELSE pc' = "ack" /\ UNCHANGED <<writer, after, ri, ref, refAct, rolls>>
-  /\ UNCHANGED <<disk, cur, used, W, acked, nextId, fault, nFaults, nCrash, nRestart, nObst, res>>
+          ELSE pc' = "ack" /\ UNCHANGED <<writer, after, ri, ref, refAct, rolls, disk, W>>
+  /\ UNCHANGED <<cur, used, acked, nextId, fault, nFaults, nCrash, nRestart, nObst, nEnc, res>>
 
 Ack ==
   /\ pc = "ack"
   /\ acked' = acked \cup {cur.id} /\ res' = "ok" /\ pc' = "idle"
   /\ hist' = Log([op |-> "append", id |-> cur.id, sz |-> cur.sz, res |-> "ok", disk |-> Snap])
-  /\ UNCHANGED <<disk, writer, cur, ri, after, used, W, nextId, fault, nFaults, nCrash, nRestart, nObst, ref, refAct, rolls>>
+  /\ UNCHANGED <<disk, writer, cur, ri, after, used, W, nextId, fault, nFaults, nCrash, nRestart, nObst, nEnc, ref, refAct, rolls>>
 
 ArmFault ==
   /\ pc = "idle" /\ fault = NoFault /\ nFaults < MaxFaults /\ nextId <= MaxRec
@@ -209,7 +239,7 @@ ArmFault ==
                ELSE {[k |-> "remove", i |-> 0]}) :
        fault' = f /\ hist' = Log([op |-> "arm", k |-> f.k, i |-> f.i])
   /\ nFaults' = nFaults + 1
-  /\ UNCHANGED <<disk, writer, pc, cur, ri, after, used, W, acked, nextId, nCrash, nRestart, nObst, ref, refAct, rolls, res>>
+  /\ UNCHANGED <<disk, writer, pc, cur, ri, after, used, W, acked, nextId, nCrash, nRestart, nObst, nEnc, ref, refAct, rolls, res>>
 
 \* a non-empty directory appears at / disappears from an archive name
 Obstruct ==
@@ -218,13 +248,13 @@ Obstruct ==
                        /\ disk' = [disk EXCEPT !.arch[x] = Dir]
                        /\ hist' = Log([op |-> "obstruct", i |-> x])
   /\ nObst' = nObst + 1
-  /\ UNCHANGED <<writer, pc, cur, ri, after, used, W, acked, nextId, fault, nFaults, nCrash, nRestart, ref, refAct, rolls, res>>
+  /\ UNCHANGED <<writer, pc, cur, ri, after, used, W, acked, nextId, fault, nFaults, nCrash, nRestart, nEnc, ref, refAct, rolls, res>>
 Unobstruct ==
   /\ pc = "idle" /\ IsWindow
   /\ \E x \in Idx : /\ disk.arch[x] = Dir
                     /\ disk' = [disk EXCEPT !.arch[x] = Absent]
                     /\ hist' = Log([op |-> "unobstruct", i |-> x])
-  /\ UNCHANGED <<writer, pc, cur, ri, after, used, W, acked, nextId, fault, nFaults, nCrash, nRestart, nObst, ref, refAct, rolls, res>>
+  /\ UNCHANGED <<writer, pc, cur, ri, after, used, W, acked, nextId, fault, nFaults, nCrash, nRestart, nObst, nEnc, ref, refAct, rolls, res>>
 
 \* process death at one of the points a harness can pin down: before a roller step, after the
 \* roller, after the flush, after everything
@@ -232,21 +262,22 @@ CrashPoint == pc \in {"rot", "gw2", "posttrig", "ack"}
 Crash ==
   /\ CrashPoint /\ nCrash < MaxCrash
   /\ nCrash' = nCrash + 1
-  /\ pc' = "down" /\ writer' = [open |-> FALSE, len |-> 0] /\ fault' = NoFault /\ res' = "none"
+  /\ pc' = "down" /\ writer' = Closed /\ fault' = NoFault /\ res' = "none"
   /\ hist' = Log([op |-> "append", id |-> cur.id, sz |-> cur.sz, res |-> "crash",
                   at |-> [pc |-> pc, i |-> IF pc = "rot" THEN ri ELSE 0, pre |-> Pre], disk |-> Snap])
-  /\ UNCHANGED <<disk, cur, ri, after, used, W, acked, nextId, nFaults, nRestart, nObst, ref, refAct, rolls>>
+  /\ UNCHANGED <<disk, cur, ri, after, used, W, acked, nextId, nFaults, nRestart, nObst, nEnc, ref, refAct, rolls>>
 
 \* the appender is dropped between appends; Build follows
 Stop ==
   /\ pc = "idle" /\ nRestart < MaxRestart /\ nextId <= MaxRec
   /\ nRestart' = nRestart + 1
-  /\ pc' = "down" /\ writer' = [open |-> FALSE, len |-> 0] /\ res' = "none"
+  /\ pc' = "down" /\ writer' = Closed /\ res' = "none"
+  /\ disk' = Flushed(disk) /\ W' = W \o writer.buf /\ refAct' = refAct \o writer.buf
   /\ hist' = Log([op |-> "stop"])
-  /\ UNCHANGED <<disk, cur, ri, after, used, W, acked, nextId, fault, nFaults, nCrash, nObst, ref, refAct, rolls>>
+  /\ UNCHANGED <<cur, ri, after, used, acked, nextId, fault, nFaults, nCrash, nObst, nEnc, ref, rolls>>
 
 Next == (\E s \in Sizes : Start(s)) \/ Build \/ GetWriter1 \/ PreTrig \/ RotStep \/ GetWriter2 \/ Write
-        \/ PostTrig \/ Ack \/ ArmFault \/ Obstruct \/ Unobstruct \/ Crash \/ Stop
+        \/ PostTrig \/ Ack \/ (\E k \in {0, 1, cur.sz} : EncFail(k)) \/ ArmFault \/ Obstruct \/ Unobstruct \/ Crash \/ Stop
 Spec == Init /\ [][Next]_vars
 
 Quiescent == pc \in {"idle", "down"}
@@ -263,10 +294,15 @@ NotLessThanIdeal == Quiescent => Len(Stream) >= Len(RefStream)
 WindowFaultFree == (Quiescent /\ Clean /\ IsWindow) =>
      \A j \in 0 .. Count - 1 : (j < Len(ref)) => disk.arch[Base + j] = File(ref[j + 1])
 \* an append with nothing armed and no obstacle succeeds (Recovers)
-Recovers == (pc = "idle" /\ res = "err") => (nFaults > 0 \/ nObst > 0)
+Recovers == (pc = "idle" /\ res = "err") => (nFaults > 0 \/ nObst > 0 \/ nEnc > 0)
 Outside == disk.arch[Base + Count].k # "file"
 \* ---------------------------------------------------------------- C06
-LenExact == (pc \in {"pretrig", "posttrig"}) => writer.len = Size(disk.act)
+\* (a pre-processing policy consulted after a failed encoder sees the buffered part as well: the estimate is
+\* "size at open + bytes accepted"; after a successful append, i.e. at every post-processing consultation, the buffer
+\* is empty and the estimate is the on-disk size)
+LenExact == (pc \in {"pretrig", "posttrig"}) => writer.len = Size(disk.act) + SumSz(writer.buf)
+PostSeesDisk == pc = "posttrig" => writer.buf = <<>>
+QuietBuffer == (nEnc = 0) => writer.buf = <<>>
 \* after every acknowledged append the active file holds at most Limit units or was just rotated away
 SizeBound == (Trig = "size" /\ pc = "idle" /\ res = "ok" /\ writer.open) => Size(disk.act) <= Limit
 \* ---------------------------------------------------------------- C17
